@@ -7,7 +7,8 @@ import (
 	"pgregory.net/rapid"
 )
 
-// Grammar-directed generator: a hand transcription of SyslParser.g4 (non-view part).
+// Grammar-directed generator: a hand transcription of SyslParser.g4 (views: the core of view / transform /
+// expr_stmt / expr, without templates).
 // Produces syntactically plausible, semantically odd programs.
 
 type gg struct {
@@ -556,7 +557,9 @@ func (g *gg) application() {
 	hdr += g.optAttribs(25) + ":"
 	g.emit(0, hdr)
 	for i := 0; i < g.n(1, 5, "nmembers"); i++ {
-		switch g.n(0, 16, "member") {
+		switch g.n(0, 19, "member") {
+		case 17, 18, 19:
+			g.view(1)
 		case 0:
 			g.aliasDecl(1)
 		case 1:
@@ -605,6 +608,159 @@ func (g *gg) application() {
 			g.simpleEndpoint(1)
 		}
 	}
+}
+
+// ---------- views (SyslParser.g4: view, transform, expr_stmt, expr) ----------
+
+var ggViewNames = []string{"x", "y", "n", "item", "out", "acc"}
+
+func (g *gg) vname() string { return pick(g.t, ggViewNames, "vname") }
+
+func (g *gg) viewType() string {
+	switch g.n(0, 5, "vtype") {
+	case 0:
+		return "int"
+	case 1:
+		return "string"
+	case 2:
+		return "set of " + g.name()
+	case 3:
+		return "sequence of " + g.name()
+	case 4:
+		return g.name() + "." + g.name()
+	}
+	return g.name()
+}
+
+// viewExpr renders one expression (no line break).
+func (g *gg) viewExpr(d int) string {
+	if d <= 0 || g.p(30, "vleaf") {
+		switch g.n(0, 9, "vatom") {
+		case 0:
+			return g.digits()
+		case 1:
+			return g.qstring()
+		case 2:
+			return pick(g.t, []string{"true", "false", "null", "{:}"}, "vconst")
+		case 3:
+			return "." + g.vname()
+		case 4:
+			return g.vname() + "." + g.vname()
+		case 5:
+			return "."
+		}
+		return g.vname()
+	}
+	d--
+	switch g.n(0, 13, "vexpr") {
+	case 0, 1:
+		op := pick(g.t, []string{"+", "-", "*", "/", "%", "==", "!=", "<", "<=", ">", ">=", "&&", "||", "in", "!in", "|", "&", "but not", "??", "**"}, "vbinop")
+		return g.viewExpr(d) + " " + op + " " + g.viewExpr(d)
+	case 2:
+		return pick(g.t, []string{"-", "!", "+", "~"}, "vunop") + g.viewExpr(d)
+	case 3:
+		return "(" + g.viewExpr(d) + ")"
+	case 4:
+		return "{" + g.viewExpr(d) + ", " + g.viewExpr(d) + "}"
+	case 5:
+		return "[" + g.viewExpr(d) + ", " + g.viewExpr(d) + "]"
+	case 6:
+		return g.vname() + "(" + g.viewExpr(d) + ")"
+	case 7:
+		return "if " + g.viewExpr(d) + " then " + g.viewExpr(d) + " else " + g.viewExpr(d)
+	case 8:
+		sv := ""
+		if g.p(50, "vwheresv") {
+			sv = g.vname() + ": "
+		}
+		return g.viewExpr(d) + " " + pick(g.t, []string{"where", "flatten"}, "vrel1") + "(" + sv + g.viewExpr(d) + ")"
+	case 9:
+		return g.viewExpr(d) + " " + pick(g.t, []string{"count", "single", "singleOrNull", "snapshot"}, "vrel0")
+	case 10:
+		return g.viewExpr(d) + " any(" + g.digits() + ")"
+	case 11:
+		return g.viewExpr(d) + " " + pick(g.t, []string{"sum", "min", "max", "average"}, "vagg") + "(" + g.viewExpr(d) + ")"
+	case 12:
+		return g.viewExpr(d) + " -> " + pick(g.t, []string{"", "set of ", "sequence of "}, "vnav") + g.vname()
+	}
+	return g.viewExpr(d) + " rank(" + g.viewExpr(d) + " " + pick(g.t, []string{"asc", "desc", ""}, "vrankdir") + " as " + g.vname() + ")"
+}
+
+// viewTransform emits `<prefix><arg> -> <type>(var:` + statements + `)`.
+func (g *gg) viewTransform(depth, nest int, prefix string) {
+	h := prefix
+	if g.p(85, "vtfarg") {
+		h += g.viewExpr(1) + " "
+	}
+	h += "->"
+	switch g.n(0, 4, "vtftype") {
+	case 0:
+		h += " <" + g.name() + ">"
+	case 1:
+		h += " <set of " + g.name() + ">"
+	case 2:
+		h += " <sequence of " + g.name() + ">"
+	case 3:
+		h += " <" + pick(g.t, []string{"set of", "sequence of"}, "vtfbare") + ">"
+	}
+	h += " ("
+	if g.p(40, "vtfsv") {
+		h += g.vname()
+	}
+	g.emit(depth, h+":")
+	for i := 0; i < g.n(1, 4, "vnstmts"); i++ {
+		lhs := g.vname() + " = "
+		switch g.n(0, 9, "vstmt") {
+		case 0, 1:
+			lhs = "let " + lhs
+		case 2:
+			lhs = "table of " + lhs
+		case 3:
+			g.emit(depth+1, "."+g.vname())
+			continue
+		case 4:
+			g.emit(depth+1, g.vname()+"("+g.viewExpr(1)+").*")
+			continue
+		}
+		switch {
+		case nest < 3 && g.p(30, "vnested"):
+			g.viewTransform(depth+1, nest+1, lhs)
+		case nest < 3 && g.p(15, "vifblock"):
+			g.emit(depth+1, lhs+"if "+g.vname()+" ==:")
+			for k := 0; k < g.n(1, 3, "vifcases"); k++ {
+				g.emit(depth+2, g.viewExpr(0)+", "+g.viewExpr(0)+" => "+g.viewExpr(1))
+			}
+			if g.p(70, "vifelse") {
+				g.emit(depth+2, "else "+g.viewExpr(1))
+			}
+		default:
+			g.emit(depth+1, lhs+g.viewExpr(3))
+		}
+	}
+	g.emit(depth, ")")
+}
+
+func (g *gg) view(depth int) {
+	h := "!view " + g.nameStr() + "("
+	for i, n := 0, g.n(1, 3, "vnparams"); i < n; i++ {
+		if i > 0 {
+			h += ", "
+		}
+		h += ggViewNames[i] + " <: " + g.viewType()
+		if g.p(15, "vparamopt") {
+			h += "?"
+		}
+	}
+	h += ")"
+	if g.p(80, "vret") {
+		h += " -> " + g.viewType()
+	}
+	if g.p(10, "vabstract") {
+		g.emit(depth, h+" [~abstract]")
+		return
+	}
+	g.emit(depth, h+g.optAttribs(15)+":")
+	g.viewTransform(depth+1, 0, "")
 }
 
 func GenGrammarProgram(t *rapid.T) string {
